@@ -9,6 +9,7 @@ import VsgProofs.Lemmas.BaseWsEffects
 import VsgProofs.Lemmas.BaseBindEffects
 import VsgProofs.Lemmas.PostPhase1
 import VsgProofs.Lemmas.BaseCaseTok
+import VsgProofs.Lemmas.BaseStructDispatch
 namespace Vsgm.C02
 open Vsgm
 
@@ -602,5 +603,182 @@ theorem bfix_case_commentEndsLine (owner : String) (params action : Base.KV) (ol
     simpa [List.map_map, Function.comp_def] using this
 
 /-! ### END ag_bcase -/
+
+/-! ### BEGIN ag_bstruct (insert / remove / parens / split / multiline alignment) -/
+
+/-! ### layer B: the token-adding / token-removing base classes and comments, for ALL actions and token lists -/
+
+/-- **insert family, `action: add`**: unless a designated token is itself comment-like (none of the
+    pinned rules' parameters is, see `C01.insert_params_redundant`), every comment, pragma and
+    preprocessor line is kept verbatim and in order -/
+theorem bfix_insert_commentSeq (E : Base.Env) (owner : String) (o : Base.SOwner) (params action : Base.KV)
+    (old new : List Tok) (ho : Base.sownerOf owner = some o) (hi : o.isInsert = true)
+    (hm : Base.removeMode o params = false)
+    (h : Base.fixStruct E owner params action old = some (.ok new))
+    (hd : ∀ ins, Base.designated E o params action = .ok (some ins) → commentSeq ins = []) :
+    commentSeq new = commentSeq old := by
+  unfold Base.fixStruct at h
+  simp only [ho, Option.map_some, Option.some.injEq] at h
+  rcases Base.fixS_insert_add Base.projComment E o params action old new hi hm h with h | ⟨ins, hd', hs⟩
+  · rw [h]
+  · have : Base.InsSeg [] (commentSeq old) (commentSeq new) := by
+      have := hd ins hd'
+      simp only [Base.projComment] at hs
+      rw [this] at hs; exact hs
+    exact this.nil.symm
+
+/-- **insert family, `action: remove`**: the comments of the result are those of the first token of
+    interest; on the two tokens the extractor delivers nothing comment-like is lost unless the
+    removed optional token is itself comment-like -/
+theorem bfix_optional_remove_commentSeq (E : Base.Env) (owner : String) (o : Base.SOwner) (params action : Base.KV)
+    (a t : Tok) (new : List Tok) (ho : Base.sownerOf owner = some o) (hi : o.isInsert = true)
+    (hne : o ≠ .tokensRightOf) (hm : Base.removeMode o params = true)
+    (h : Base.fixStruct E owner params action [a, t] = some (.ok new)) (ht : t.isCommentLike = false) :
+    commentSeq new = commentSeq [a, t] := by
+  unfold Base.fixStruct at h
+  simp only [ho, Option.map_some, Option.some.injEq] at h
+  obtain ⟨t0, rest, hl, hn⟩ := Base.fixS_insert_remove E o params action [a, t] new hi hne hm h
+  cases hl
+  subst hn
+  by_cases hw : (a.kind == Kind.ws) = true
+  · have hk : a.kind = .ws := by simpa using hw
+    have ha : a.isCommentLike = false := by simp [Tok.isCommentLike, Kind.isCommentLike, hk]
+    simp [hw, commentSeq, ht, ha]
+  · simp [hw, commentSeq, ht]
+
+/-- **label removers** (`remove_tokens_bounded_by_tokens_and_remove_trailing_whitespace`): the fixer
+    replaces the tokens of interest by nothing WITHOUT looking at them — a comment between the label
+    and the colon is deleted (the known `commentLost` finding); the model reproduces it -/
+theorem bfix_bounded_commentLost :
+    let old : List Tok := [⟨138, .code, "lbl".toList⟩, ⟨5, .cr, "\n".toList⟩, ⟨13, .comment, "-- c".toList⟩,
+      ⟨5, .cr, "\n".toList⟩, ⟨143, .code, ":".toList⟩, ⟨51, .ws, " ".toList⟩]
+    ∃ new, Base.fixS Base.stdEnv .bounded [] [] old = .ok new ∧ commentSeq old ≠ commentSeq new ∧
+      crSeq old ≠ crSeq new := by
+  refine ⟨[], by rfl, by decide, by decide⟩
+
+/-- … and keeps every comment when there is none among the tokens of interest (the excluded case is
+    exactly the witness above) -/
+theorem bfix_delete_commentSeq_partial (E : Base.Env) (owner : String) (o : Base.SOwner) (params action : Base.KV)
+    (old new : List Tok) (ho : Base.sownerOf owner = some o) (hd : o.isDelete = true)
+    (h : Base.fixStruct E owner params action old = some (.ok new)) (hc : commentSeq old = []) :
+    commentSeq new = commentSeq old := by
+  unfold Base.fixStruct at h
+  simp only [ho, Option.map_some, Option.some.injEq] at h
+  cases o <;> simp [Base.SOwner.isDelete] at hd
+  · have := Base.Remove.fixBounded_eq old new h
+    subst this; rw [hc]; rfl
+  · obtain ⟨a, x, rest, _, _, h3⟩ := Base.Remove.fixRemoveTokens_proj Base.projComment old new h
+    have hs := h3.sublist
+    simp only [Base.projComment] at hs
+    rw [hc] at hs ⊢
+    exact List.eq_nil_of_sublist_nil hs
+
+/-- `remove_comments_from_end_of_lines_bounded_by_tokens` (documented to delete comments): every token
+    of interest goes, whatever it is -/
+theorem bfix_removeComments_all (E : Base.Env) (params action : Base.KV) (old new : List Tok)
+    (h : Base.fixS E .removeComments params action old = .ok new) : new = [] :=
+  Base.Remove.fixRemoveComments_eq old new h
+
+/-- **`if_002`**: new parentheses never touch a comment (`parenthesis: insert`, parenthesis classes that
+    are not comment classes); `parenthesis: remove` can only drop tokens -/
+theorem bfix_parens_insert_commentSeq (E : Base.Env) (params action : Base.KV) (old new : List Tok)
+    (hp : Base.strIs params "parenthesis" "insert" = true)
+    (h : Base.fixS E .if002 params action old = .ok new)
+    (hko : (E.kindOf E.openParenCls).isCommentLike = false) (hkc : (E.kindOf E.closeParenCls).isCommentLike = false) :
+    commentSeq new = commentSeq old := by
+  unfold Base.fixS at h
+  simp only [hp] at h
+  obtain ⟨_, hn⟩ := Base.Parens.fixV_insert E action old new h
+  subst hn
+  simp [commentSeq, Tok.isCommentLike, Base.Env.inst, hko, hkc]
+
+theorem bfix_parens_remove_commentSeq (E : Base.Env) (params action : Base.KV) (old new : List Tok)
+    (hp : Base.strIs params "parenthesis" "insert" = false)
+    (h : Base.fixS E .if002 params action old = .ok new) :
+    ∃ li ri, (Base.needList action "left_insert" >>= Base.toksOf) = .ok li ∧
+      (Base.needList action "right_insert" >>= Base.toksOf) = .ok ri ∧
+      (commentSeq li = [] → commentSeq ri = [] → (commentSeq new).Sublist (commentSeq old)) := by
+  unfold Base.fixS at h
+  simp only [hp] at h
+  obtain ⟨li, ri, k, hli, hri, hk, hn⟩ := Base.Parens.fixV_remove E action old new h
+  refine ⟨li, ri, hli, hri, ?_⟩
+  intro h1 h2
+  subst hn
+  rw [commentSeq_append, h2, List.append_nil]
+  have : (commentSeq k).Sublist (commentSeq (li ++ old)) := Base.projComment.sublist hk
+  rw [commentSeq_append, h1, List.nil_append] at this
+  exact this
+
+/-- **signal_015** re-creates the declaration once per identifier from the tokens before the first and
+    after the last identifier, with every line break removed: a comment between the identifiers is lost
+    (`commentLost`), a comment before them is repeated and — its line break gone — swallows the code
+    that follows (`commentAbsorbsCode`).  Known findings; the model reproduces both. -/
+theorem bfix_signal_commentLost :
+    let sg : Tok := ⟨692, .code, "signal".toList⟩
+    let w : Tok := ⟨51, .ws, " ".toList⟩
+    let a : Tok := ⟨690, .code, "a".toList⟩
+    let b : Tok := ⟨690, .code, "b".toList⟩
+    let old : List Tok := [sg, w, a, ⟨352, .code, ",".toList⟩, w, ⟨13, .comment, "-- c".toList⟩, ⟨5, .cr, "\n".toList⟩,
+      b, w, ⟨689, .code, ":".toList⟩, w, ⟨749, .code, "bit".toList⟩, ⟨691, .code, ";".toList⟩]
+    let action : Base.KV := [("start", .int 2), ("end", .int 7), ("number", .int 2), ("identifiers", .list [.tok a, .tok b])]
+    ∃ new, Base.fixS Base.stdEnv .signal015 [] action old = .ok new ∧ commentSeq old = ["-- c".toList] ∧
+      commentSeq new = [] := by
+  refine ⟨_, by rfl, by decide, by decide⟩
+
+theorem bfix_signal_commentAbsorbsCode :
+    let sg : Tok := ⟨692, .code, "signal".toList⟩
+    let w : Tok := ⟨51, .ws, " ".toList⟩
+    let a : Tok := ⟨690, .code, "a".toList⟩
+    let b : Tok := ⟨690, .code, "b".toList⟩
+    let old : List Tok := [sg, w, ⟨13, .comment, "-- c".toList⟩, ⟨5, .cr, "\n".toList⟩, a, ⟨352, .code, ",".toList⟩, w,
+      b, w, ⟨689, .code, ":".toList⟩, w, ⟨749, .code, "bit".toList⟩, ⟨691, .code, ";".toList⟩]
+    let action : Base.KV := [("start", .int 4), ("end", .int 7), ("number", .int 2), ("identifiers", .list [.tok a, .tok b])]
+    ∃ new, Base.fixS Base.stdEnv .signal015 [] action old = .ok new ∧ commentEndsLine old = true ∧
+      commentEndsLine new = false ∧ commentSeq new = ["-- c".toList, "-- c".toList] := by
+  refine ⟨_, by rfl, by decide, by decide, by decide⟩
+
+/-- **port_026** copies the tokens after the identifier list once per identifier: a trailing comment
+    that belongs to the tokens of interest is duplicated (`commentInvented`, known finding) -/
+theorem bfix_port_commentInvented :
+    let w : Tok := ⟨51, .ws, " ".toList⟩
+    let a : Tok := ⟨445, .code, "a".toList⟩
+    let b : Tok := ⟨445, .code, "b".toList⟩
+    let old : List Tok := [a, ⟨352, .code, ",".toList⟩, w, b, w, ⟨444, .code, ":".toList⟩, w, ⟨475, .code, "in".toList⟩, w,
+      ⟨749, .code, "bit".toList⟩, w, ⟨13, .comment, "-- c".toList⟩]
+    let action : Base.KV := [("last_element", .bool false), ("identifier_indexes", .list [.int 0, .int 3]), ("split_index", .int 4)]
+    ∃ new, Base.fixS Base.stdEnv .port026 [] action old = .ok new ∧ commentSeq old = ["-- c".toList] ∧
+      commentSeq new = ["-- c".toList, "-- c".toList] ∧ commentEndsLine new = false := by
+  refine ⟨_, by rfl, by decide, by decide +kernel, by decide +kernel⟩
+
+/-- the splitters keep the (empty) comment sequence when neither the tokens of interest nor the
+    action's identifiers contain anything comment-like: the excluded cases are the witnesses above -/
+theorem bfix_split_commentSeq_partial (E : Base.Env) (o : Base.SOwner) (params action : Base.KV) (old new : List Tok)
+    (hs : o.isSplit = true) (h : Base.fixS E o params action old = .ok new)
+    (hc : ∀ t ∈ old, t.isCommentLike = false)
+    (hids : ∀ ids, (Base.needList action "identifiers" >>= Base.toksOf) = .ok ids → ∀ t ∈ ids, t.isCommentLike = false)
+    (hsemi : (E.kindOf E.ifaceSemicolonCls).isCommentLike = false) :
+    commentSeq new = commentSeq old := by
+  have key : ∀ l : List Tok, (∀ t ∈ l, t.isCommentLike = false) → commentSeq l = [] := by
+    intro l hl
+    induction l with
+    | nil => rfl
+    | cons t r ih =>
+      simp only [commentSeq, List.flatMap_cons, hl t (by simp), Bool.false_eq_true, if_false, List.nil_append]
+      exact ih (fun t ht => hl t (by simp [ht]))
+  rw [key old hc]
+  apply key
+  intro t ht
+  cases o <;> simp [Base.SOwner.isSplit] at hs
+  · obtain ⟨ids, _, _, h1, _, _, _, _, hm⟩ := Base.Split.fixSignal_codeSeq id E action old new h
+    rcases hm t ht with h | h | h
+    · exact hc t h
+    · exact hids ids h1 t h
+    · subst h; rfl
+  · rcases Base.Split.fixPort_mem E action old new h t ht with h | h | h
+    · exact hc t h
+    · subst h; simpa [Tok.isCommentLike, Base.Env.inst] using hsemi
+    · subst h; rfl
+
+/-! ### END ag_bstruct -/
 
 end Vsgm.C02
